@@ -412,8 +412,8 @@ def _save_im(filename, im, depth=8):
             depth = 8
             typestr = 'uint8'
         elif depth == 16 or depth == 32:
-            depth = depth-1
             typestr = 'int' + str(depth)
+            depth = depth-1
         else:
             raise ValueError("Unknown image depth")
 
